@@ -417,7 +417,14 @@ func (m *Machine) visit(fr *frame, instr ssa.Instruction) int {
 	case *ssa.MakeInterface:
 		fr.env[in] = IfaceV{T: in.X.Type(), V: copyVal(fr.get(in.X))}
 	case *ssa.Extract:
-		fr.env[in] = fr.get(in.Tuple).(TupleV)[in.Index]
+		tv, isTuple := fr.get(in.Tuple).(TupleV)
+		if !isTuple {
+			if pz, ok := fr.get(in.Tuple).(Poison); ok {
+				m.unsupported("use of an unavailable value: " + pz.Why)
+			}
+			m.unsupported(fmt.Sprintf("extract from %T", fr.get(in.Tuple)))
+		}
+		fr.env[in] = tv[in.Index]
 	case *ssa.Slice:
 		fr.env[in] = m.sliceOp(fr, in)
 	case *ssa.Return:
